@@ -837,10 +837,10 @@ def judge_pair(names, independent, table, singles):
 
 
 def minimal(bad):
-    """One witness per (family, last event): shortest history, then lexicographic."""
+    """One witness per root-cause family: shortest history, then lexicographic."""
     best = {}
     for fam, last, h, chk in bad:
-        k = (fam, last)
+        k = (fam, "")
         if k not in best or (len(h), h) < (len(best[k][0]), best[k][0]):
             best[k] = (h, chk)
     return [(fam, last, h, chk) for (fam, last), (h, chk) in sorted(best.items())]
@@ -891,6 +891,8 @@ def report(run, names, independent, fam, h, chk, singles_names=None):
 # main
 # =================================================================================================
 
+DEPTH = {"quick": (4, 4), "thorough": (5, 5)}  # (single-entry histories, two-class interleavings)
+
 PAIRS = [
     # (A, B, independent?)  independent pairs share no handler-cache key
     ("Replacer", "syn.Replacer#dup", True),
@@ -901,13 +903,22 @@ PAIRS = [
 
 
 def main(argv):
+    try:
+        _main(argv)
+    except (SystemExit, KeyboardInterrupt):
+        raise
+    except BaseException:  # noqa: BLE001  harness/internal errors are not verdicts
+        traceback.print_exc()
+        sys.exit(2)
+
+
+def _main(argv):
     run = Run(PID, argv)
     ents = entries()
     if run.args.replay:
         return replay(run)
     quick = not run.thorough()
-    depth = 4 if quick else 5
-    pdepth = 4 if quick else 5
+    depth, pdepth = DEPTH["quick" if quick else "thorough"]
 
     # classes whose constructor cannot be satisfied by the table are skipped (and listed)
     for name in list(ents):
@@ -1043,7 +1054,7 @@ def main(argv):
         "outcomes are compared as result repr with Index/Label counts renamed by first appearance and memory "
         "addresses removed, or as exception type; an IndexError/AttributeError/KeyError counts as escaping dispatch "
         "only if its innermost frame is in a dispatch module or on a line indexing a table by _ufl_typecode_",
-        "violations are reported as one minimal witness per (root-cause family, entry, last event); the number of "
+        "violations are reported as one minimal witness per (root-cause family, entry); the number of "
         "violating histories per family is in coverage.counters",
     ]
     run.finish()
